@@ -7,6 +7,9 @@ def run(ctx):
     fams = QUICK if ctx.tier == "quick" else ALL
     ctx.cvc(fams, ["M-ALLOC"])
     ctx.cvc(["II", "OO"] if ctx.tier == "quick" else ["II", "OO", "LF", "QQ", "fs"], ["F-SPLIT"], functions=["bucket_split", "BTree_split_root"])
+    res3 = ctx.cvc(["II"], ["F-STATE"], functions=["BTree_getstate", "bucket_getstate"])
+    from lib import replay
+    replay.replay_fstate(ctx, res3)
     ctx.standin("alloc_rt", families=("OO", "II") if ctx.tier == "quick" else ("OO", "II", "fs", "LF", "QQ"))
     return "proof", (
         "M-ALLOC on every function of the translation units (%s) that allocates, reallocates or frees directly, "
@@ -17,6 +20,8 @@ def run(ctx):
         "after a failed allocation the leaf is exactly as it was (len, next, vectors and their contents) and the new sibling "
         "holds no pointer to a released block; when it returns 0 the halves are the exact halves (see C03); BTree_split_root: a failure "
         "before the hand-over leaves the root as it was and the child released on that path owns nothing of the root's. "
+        "F-STATE (see C06), run here for its clause `item-not-NULL`: a number object that could not be allocated is never stored into "
+        "a state tuple (found and fixed in BTree_getstate: 5b9672e; replayed natively with _testcapi.set_nomemory). "
         "Soundness of the container after the failure, contents previous-or-completed and the follow-up "
         "workload are the bounded fault enumeration alloc_rt through the guarded hook (every n, every scenario)."
         % ", ".join(fams))
